@@ -583,8 +583,17 @@ def run(ctx):
         for _ in range(n):
             try:
                 what, probs = fn(rng)
-            except ValueError as e:
-                ctx.stat("l2_rejected_" + fn.__name__); continue
+            except Exception as e:
+                # every text these extractors write is inside the grammar and legal (no rejection occurs on the unchanged tree):
+                # a rejection - ValueError or a parser exception - is "text inside the grammar is not parsed as written"
+                if not isinstance(e, ValueError) and not type(e).__module__.startswith("lark"):
+                    raise
+                ctx.stat("l2_rejected_" + fn.__name__)
+                ctx.case([fn.__name__, "rejected", str(e)[:200]], nontrivial=True)
+                ctx.ob(False)
+                ctx.violation(dict(kind="extractor-rejected", extractor=fn.__name__, error="%s: %s" % (type(e).__name__, str(e)[:400]),
+                                   reason="a specification written by the %s generator (inside the grammar, legal) is rejected: %s" % (fn.__name__, str(e)[:300])), True)
+                continue
             ctx.case([fn.__name__, str(what)], nontrivial=True)
             ctx.stat(fn.__name__)
             ctx.ob(not probs)
